@@ -269,4 +269,517 @@ theorem book_run (d : Def) (evs : List Ev) (s : St) (hb : Book d s) : Book d (ru
   | nil => exact hb
   | cons e es ih => exact ih _ (book_apply d s e hb)
 
+/-! ## timing invariant -/
+
+/-- channel ids in the mock are below the next fresh id -/
+def IdsOK (m : Mock) : Prop :=
+  (∀ e ∈ m.timers, e.2 < m.next) ∧ (∀ e ∈ m.box, e.1 < m.next)
+
+/-- channel `c` was asked to wake at `due`: whatever is pending for it is due no earlier, whatever
+has been delivered into it carries a clock reading no earlier -/
+def ChanOK (m : Mock) (c : Nat) (due : Int) : Prop :=
+  c < m.next ∧ (∀ v, (c, v) ∈ m.box → due ≤ v) ∧ (∀ x, (x, c) ∈ m.timers → due ≤ x)
+
+theorem idsOK_until (m : Mock) (t : Int) (h : IdsOK m) : IdsOK (m.until t).1 := by
+  obtain ⟨h1, h2⟩ := h
+  refine ⟨fun e he => ?_, fun e he => ?_⟩
+  · rw [until_next]
+    rcases (mem_until_timers m t e).mp he with he | ⟨_, he⟩
+    · have := h1 e he; omega
+    · subst he; simp
+  · rw [until_next]
+    rcases (mem_until_box m t e).mp he with he | ⟨_, he⟩
+    · have := h2 e he; omega
+    · subst he; simp
+
+theorem idsOK_set (m : Mock) (t : Int) (h : IdsOK m) : IdsOK (m.set t) := by
+  obtain ⟨h1, h2⟩ := h
+  refine ⟨fun e he => ?_, fun e he => ?_⟩
+  · rw [set_next]; exact h1 e ((mem_set_timers m t e).mp he).1
+  · rw [set_next]
+    rcases (mem_set_box m t e).mp he with he | ⟨_, x, hx, _⟩
+    · exact h2 e he
+    · exact h1 _ hx
+
+theorem idsOK_take (m : Mock) (c : Nat) (h : IdsOK m) : IdsOK (m.take c) := by
+  obtain ⟨h1, h2⟩ := h
+  exact ⟨h1, fun e he => h2 e ((mem_take_box m c e).mp he).1⟩
+
+theorem chanOK_until_old (m : Mock) (t : Int) (c : Nat) (due : Int) (h : ChanOK m c due) :
+    ChanOK (m.until t).1 c due := by
+  obtain ⟨h0, h1, h2⟩ := h
+  refine ⟨by rw [until_next]; omega, fun v hv => ?_, fun x hx => ?_⟩
+  · rcases (mem_until_box m t _).mp hv with hv | ⟨_, hv⟩
+    · exact h1 v hv
+    · simp at hv; omega
+  · rcases (mem_until_timers m t _).mp hx with hx | ⟨_, hx⟩
+    · exact h2 x hx
+    · simp at hx; omega
+
+theorem chanOK_until_new (m : Mock) (t : Int) (h : IdsOK m) :
+    ChanOK (m.until t).1 (m.until t).2 t := by
+  obtain ⟨h1, h2⟩ := h
+  rw [until_id]
+  refine ⟨by rw [until_next]; omega, fun v hv => ?_, fun x hx => ?_⟩
+  · rcases (mem_until_box m t _).mp hv with hv | ⟨ht, hv⟩
+    · have := h2 _ hv; simp at this
+    · simp at hv; omega
+  · rcases (mem_until_timers m t _).mp hx with hx | ⟨_, hx⟩
+    · have := h1 _ hx; simp at this
+    · simp at hx; omega
+
+theorem chanOK_set (m : Mock) (t : Int) (c : Nat) (due : Int) (h : ChanOK m c due) :
+    ChanOK (m.set t) c due := by
+  obtain ⟨h0, h1, h2⟩ := h
+  refine ⟨h0, fun v hv => ?_, fun x hx => ?_⟩
+  · rcases (mem_set_box m t _).mp hv with hv | ⟨hv, x, hx, hxt⟩
+    · exact h1 v hv
+    · have := h2 x hx; simp at hv; omega
+  · exact h2 x ((mem_set_timers m t _).mp hx).1
+
+theorem chanOK_take (m : Mock) (c' c : Nat) (due : Int) (h : ChanOK m c due) :
+    ChanOK (m.take c') c due := by
+  obtain ⟨h0, h1, h2⟩ := h
+  exact ⟨h0, fun v hv => h1 v ((mem_take_box m c' _).mp hv).1, h2⟩
+
+/-- consecutive (indeed all earlier/later) firings are at least `i` apart in wake-up time -/
+def Spaced (i : Int) (l : List Firing) : Prop := l.Pairwise (fun a b => a.wake + i ≤ b.wake)
+
+/-- the k-th firing (from 0) is not before `z + (k+1)·i` -/
+def DueOK (z i : Int) (l : List Firing) : Prop :=
+  ∀ (k : Nat) (f : Firing), l[k]? = some f → z + i * ((k : Int) + 1) ≤ f.wake
+
+def Timing (d : Def) (z : Int) (s : St) : Prop :=
+  IdsOK s.m ∧ Spaced d.interval s.fired ∧ DueOK z d.interval s.fired ∧
+  match s.ph with
+  | .oneShot c => ChanOK s.m c z
+  | .waitStart c st => st = z ∧ ChanOK s.m c z
+  | .loop _ t c _ =>
+    ChanOK s.m c (t + d.interval) ∧ z + d.interval * (s.fired.length : Int) ≤ t ∧
+    (∀ f ∈ s.fired, f.wake ≤ t)
+  | .stopped _ => True
+
+theorem dueOK_concat (z i : Int) (l : List Firing) (f : Firing) (h : DueOK z i l)
+    (hf : z + i * ((l.length : Int) + 1) ≤ f.wake) : DueOK z i (l ++ [f]) := by
+  intro k g hk
+  rw [List.getElem?_append] at hk
+  split at hk
+  · exact h k g hk
+  · rename_i hlt
+    have : k - l.length = 0 := by
+      cases hkl : k - l.length with
+      | zero => rfl
+      | succ n => simp [hkl] at hk
+    have hk' : k = l.length := by omega
+    simp [this] at hk
+    subst hk; subst hk'; exact hf
+
+theorem spaced_concat (i : Int) (l : List Firing) (f : Firing) (h : Spaced i l)
+    (hf : ∀ a ∈ l, a.wake + i ≤ f.wake) : Spaced i (l ++ [f]) := by
+  unfold Spaced at *
+  rw [List.pairwise_append]
+  refine ⟨h, by simp, ?_⟩
+  intro a ha b hb
+  simp at hb; subst hb; exact hf a ha
+
+theorem timing_iterate (d : Def) (z : Int) (s : St) (reps t : Int)
+    (hids : IdsOK s.m) (hsp : Spaced d.interval s.fired) (hdue : DueOK z d.interval s.fired)
+    (ht : z + d.interval * (s.fired.length : Int) ≤ t) (hw : ∀ f ∈ s.fired, f.wake ≤ t) :
+    Timing d z (iterate d s reps t) := by
+  unfold iterate
+  split
+  · exact ⟨hids, hsp, hdue, trivial⟩
+  · dsimp only
+    have hnew := chanOK_until_new s.m (t + d.interval) hids
+    have hids1 := idsOK_until s.m (t + d.interval) hids
+    split
+    · exact ⟨hids1, hsp, hdue, hnew, ht, hw⟩
+    · rename_i e _
+      exact ⟨idsOK_until _ e hids1, hsp, hdue, chanOK_until_old _ e _ _ hnew, ht, hw⟩
+
+theorem timing_init (d : Def) (now0 : Int) : Timing d (d.origin now0) (init d now0) := by
+  have hids : IdsOK (Mock.at now0) := by simp [IdsOK, Mock.at]
+  have hnew := chanOK_until_new (Mock.at now0) (d.origin now0) hids
+  have hids1 := idsOK_until (Mock.at now0) (d.origin now0) hids
+  cases d <;> exact ⟨hids1, by simp [init, Spaced], by simp [init, DueOK], by simpa [init] using hnew⟩
+
+theorem timing_step (d : Def) (z : Int) (c : Nat) (s s' : St) (hI : 0 ≤ d.interval)
+    (hb : Book d s) (ht : Timing d z s) (hs : step d c s = some s') : Timing d z s' := by
+  obtain ⟨hids, hsp, hdue, hp⟩ := ht
+  obtain ⟨_, hbp⟩ := hb
+  unfold step at hs
+  cases hph : s.ph with
+  | stopped b => simp [hph] at hs
+  | oneShot ch =>
+    simp only [hph] at hs hp hbp
+    obtain ⟨hc, hf⟩ := hbp
+    split at hs
+    · simp at hs
+    · split at hs
+      · simp at hs
+      · rename_i v hv
+        injection hs with hs; subst hs
+        have hv' := hp.2.1 v (peek_some _ _ _ hv)
+        refine ⟨idsOK_take _ _ hids, ?_, ?_, trivial⟩
+        · simp [hf, Spaced]
+        · simp only [hf, List.nil_append]
+          intro k g hk
+          cases k with
+          | zero => simp at hk; subst hk; simp [interval_of_not_cycle d hc]; exact hv'
+          | succ n => simp at hk
+    · injection hs with hs; subst hs
+      exact ⟨hids, hsp, hdue, trivial⟩
+  | waitStart ch st =>
+    simp only [hph] at hs hp hbp
+    obtain ⟨hc, hf⟩ := hbp
+    obtain ⟨hst, _⟩ := hp
+    split at hs
+    · simp at hs
+    · injection hs with hs; subst hs
+      apply timing_iterate
+      · exact idsOK_take _ _ hids
+      · exact hsp
+      · exact hdue
+      · simp [hf, hst]
+      · simp [hf]
+    · injection hs with hs; subst hs
+      exact ⟨hids, hsp, hdue, trivial⟩
+  | loop reps t ch ce =>
+    simp only [hph] at hs hp hbp
+    obtain ⟨hch, hlen, hw⟩ := hp
+    split at hs
+    · simp at hs
+    · split at hs
+      · simp at hs
+      · rename_i v hv
+        injection hs with hs; subst hs
+        have hv' : t + d.interval ≤ v := hch.2.1 v (peek_some _ _ _ hv)
+        have hmul : d.interval * ((s.fired.length : Int) + 1) =
+            d.interval * (s.fired.length : Int) + d.interval := by
+          rw [Int.mul_add, Int.mul_one]
+        apply timing_iterate
+        · exact idsOK_take _ _ hids
+        · dsimp only
+          split
+          · exact spaced_concat _ _ _ hsp (fun a ha => by have := hw a ha; simp; omega)
+          · exact hsp
+        · dsimp only
+          split
+          · exact dueOK_concat _ _ _ _ hdue (by simp only; omega)
+          · exact hdue
+        · dsimp only
+          split
+          · simp only [List.length_append, List.length_cons, List.length_nil]
+            push_cast
+            omega
+          · omega
+        · dsimp only
+          split
+          · intro f hf
+            rcases List.mem_append.mp hf with hf | hf
+            · have := hw f hf; omega
+            · simp at hf; subst hf; simp
+          · intro f hf; have := hw f hf; omega
+    · injection hs with hs; subst hs
+      exact ⟨hids, hsp, hdue, trivial⟩
+
+theorem timing_apply (d : Def) (z : Int) (s : St) (e : Ev) (hI : 0 ≤ d.interval)
+    (hb : Book d s) (ht : Timing d z s) : Timing d z (apply d s e) := by
+  cases e with
+  | cancel => exact ht
+  | tick c =>
+    simp only [apply]
+    cases hs : step d c s with
+    | none => simpa using ht
+    | some s' => simpa using timing_step d z c s s' hI hb ht hs
+  | advance x =>
+    obtain ⟨hids, hsp, hdue, hp⟩ := ht
+    refine ⟨idsOK_set _ _ hids, hsp, hdue, ?_⟩
+    cases hph : s.ph <;> simp only [apply, hph] at hp ⊢
+    · exact chanOK_set _ _ _ _ hp
+    · exact ⟨hp.1, chanOK_set _ _ _ _ hp.2⟩
+    · exact ⟨chanOK_set _ _ _ _ hp.1, hp.2⟩
+  | set t =>
+    obtain ⟨hids, hsp, hdue, hp⟩ := ht
+    refine ⟨idsOK_set _ _ hids, hsp, hdue, ?_⟩
+    cases hph : s.ph <;> simp only [apply, hph] at hp ⊢
+    · exact chanOK_set _ _ _ _ hp
+    · exact ⟨hp.1, chanOK_set _ _ _ _ hp.2⟩
+    · exact ⟨chanOK_set _ _ _ _ hp.1, hp.2⟩
+
+theorem inv_run (d : Def) (z : Int) (evs : List Ev) (s : St) (hI : 0 ≤ d.interval)
+    (hb : Book d s) (ht : Timing d z s) : Book d (run d s evs) ∧ Timing d z (run d s evs) := by
+  induction evs generalizing s with
+  | nil => exact ⟨hb, ht⟩
+  | cons e es ih => exact ih _ (book_apply d s e hb) (timing_apply d z s e hI hb ht)
+
+/-! ## monotone clocks: a wake-up never carries a reading from the future -/
+
+/-- the clock operations of a history never move the clock backwards (from reading `now`) -/
+def MonoEvs : Int → List Ev → Prop
+  | _, [] => True
+  | now, .advance x :: es => 0 ≤ x ∧ MonoEvs (now + x) es
+  | now, .set t :: es => now ≤ t ∧ MonoEvs t es
+  | now, .cancel :: es => MonoEvs now es
+  | now, .tick _ :: es => MonoEvs now es
+
+def Mono (s : St) : Prop :=
+  (∀ e ∈ s.m.box, e.2 ≤ s.m.now) ∧ (∀ f ∈ s.fired, f.wake ≤ f.clock)
+
+theorem iterate_now (d : Def) (s : St) (reps t : Int) : (iterate d s reps t).m.now = s.m.now := by
+  unfold iterate; split
+  · rfl
+  · dsimp only; split
+    · simp [until_now]
+    · simp [until_now]
+
+theorem boxle_until (m : Mock) (t : Int) (h : ∀ e ∈ m.box, e.2 ≤ m.now) :
+    ∀ e ∈ (m.until t).1.box, e.2 ≤ (m.until t).1.now := by
+  intro e he
+  rw [until_now]
+  rcases (mem_until_box m t e).mp he with he | ⟨_, he⟩
+  · exact h e he
+  · subst he; simp
+
+theorem mono_iterate (d : Def) (s : St) (reps t : Int) (h : Mono s) : Mono (iterate d s reps t) := by
+  obtain ⟨h1, h2⟩ := h
+  unfold iterate; split
+  · exact ⟨h1, h2⟩
+  · dsimp only; split
+    · exact ⟨boxle_until _ _ h1, h2⟩
+    · exact ⟨boxle_until _ _ (boxle_until _ _ h1), h2⟩
+
+theorem step_now (d : Def) (c : Nat) (s s' : St) (hs : step d c s = some s') : s'.m.now = s.m.now := by
+  unfold step at hs
+  cases hph : s.ph with
+  | stopped b => simp [hph] at hs
+  | oneShot ch =>
+    simp only [hph] at hs
+    split at hs
+    · simp at hs
+    · split at hs
+      · simp at hs
+      · injection hs with hs; subst hs; rfl
+    · injection hs with hs; subst hs; rfl
+  | waitStart ch st =>
+    simp only [hph] at hs
+    split at hs
+    · simp at hs
+    · injection hs with hs; subst hs; rw [iterate_now]; rfl
+    · injection hs with hs; subst hs; rfl
+  | loop reps t ch ce =>
+    simp only [hph] at hs
+    split at hs
+    · simp at hs
+    · split at hs
+      · simp at hs
+      · injection hs with hs; subst hs; rw [iterate_now]; rfl
+    · injection hs with hs; subst hs; rfl
+
+theorem mono_step (d : Def) (c : Nat) (s s' : St) (h : Mono s) (hs : step d c s = some s') :
+    Mono s' := by
+  obtain ⟨h1, h2⟩ := h
+  have htake : ∀ ch, ∀ e ∈ (s.m.take ch).box, e.2 ≤ (s.m.take ch).now :=
+    fun ch e he => h1 e ((mem_take_box _ _ _).mp he).1
+  unfold step at hs
+  cases hph : s.ph with
+  | stopped b => simp [hph] at hs
+  | oneShot ch =>
+    simp only [hph] at hs
+    split at hs
+    · simp at hs
+    · split at hs
+      · simp at hs
+      · rename_i v hv
+        injection hs with hs; subst hs
+        refine ⟨htake ch, fun f hf => ?_⟩
+        rcases List.mem_append.mp hf with hf | hf
+        · exact h2 f hf
+        · simp at hf; subst hf; exact h1 _ (peek_some _ _ _ hv)
+    · injection hs with hs; subst hs; exact ⟨h1, h2⟩
+  | waitStart ch st =>
+    simp only [hph] at hs
+    split at hs
+    · simp at hs
+    · injection hs with hs; subst hs
+      exact mono_iterate _ _ _ _ ⟨htake ch, h2⟩
+    · injection hs with hs; subst hs; exact ⟨h1, h2⟩
+  | loop reps t ch ce =>
+    simp only [hph] at hs
+    split at hs
+    · simp at hs
+    · split at hs
+      · simp at hs
+      · rename_i v hv
+        injection hs with hs; subst hs
+        apply mono_iterate
+        refine ⟨htake ch, ?_⟩
+        dsimp only
+        split
+        · intro f hf
+          rcases List.mem_append.mp hf with hf | hf
+          · exact h2 f hf
+          · simp at hf; subst hf; exact h1 _ (peek_some _ _ _ hv)
+        · exact h2
+    · injection hs with hs; subst hs; exact ⟨h1, h2⟩
+
+theorem mono_set (s : St) (t : Int) (h : Mono s) (ht : s.m.now ≤ t) :
+    Mono { s with m := s.m.set t } := by
+  obtain ⟨h1, h2⟩ := h
+  refine ⟨fun e he => ?_, h2⟩
+  show e.2 ≤ t
+  rcases (mem_set_box _ _ _).mp he with he | ⟨he, _⟩
+  · have := h1 e he; omega
+  · omega
+
+theorem mono_run (d : Def) (evs : List Ev) (s : St) (h : Mono s) (hm : MonoEvs s.m.now evs) :
+    Mono (run d s evs) := by
+  induction evs generalizing s with
+  | nil => exact h
+  | cons e es ih =>
+    simp only [run, List.foldl_cons]
+    cases e with
+    | advance x =>
+      obtain ⟨hx, hm⟩ := hm
+      exact ih _ (mono_set s _ h (by omega)) hm
+    | set t =>
+      obtain ⟨hx, hm⟩ := hm
+      exact ih _ (mono_set s _ h hx) hm
+    | cancel => exact ih _ h hm
+    | tick c =>
+      simp only [apply]
+      cases hs : step d c s with
+      | none => exact ih _ h hm
+      | some s' =>
+        have hn := step_now d c s s' hs
+        have hm' : MonoEvs s.m.now es := hm
+        exact ih _ (mono_step d c s s' h hs) (by show MonoEvs s'.m.now es; rw [hn]; exact hm')
+
+theorem mono_init (d : Def) (now0 : Int) : Mono (init d now0) := by
+  have h0 : ∀ e ∈ (Mock.at now0).box, e.2 ≤ (Mock.at now0).now := by simp [Mock.at]
+  have := boxle_until (Mock.at now0) (d.origin now0) h0
+  cases d <;> exact ⟨this, by simp [init]⟩
+
+theorem init_now (d : Def) (now0 : Int) : (init d now0).m.now = now0 := by
+  cases d <;> simp [init, until_now, Mock.at]
+
+/-! ## liveness side: the channel the goroutine waits on is really armed -/
+
+/-- channel `c` holds a value, or a wake-up for exactly `due` is pending for it -/
+def Armed (m : Mock) (c : Nat) (due : Int) : Prop := (∃ v, (c, v) ∈ m.box) ∨ (due, c) ∈ m.timers
+
+def Live (d : Def) (z : Int) (s : St) : Prop :=
+  match s.ph with
+  | .oneShot c => Armed s.m c z
+  | .waitStart c st => st = z ∧ Armed s.m c z
+  | .loop _ t c ce => Armed s.m c (t + d.interval) ∧ (d.endB = none → ce = none)
+  | .stopped _ => True
+
+theorem armed_until_new (m : Mock) (t : Int) : Armed (m.until t).1 (m.until t).2 t := by
+  rw [until_id]
+  by_cases h : t ≤ m.now
+  · exact Or.inl ⟨m.now, (mem_until_box m t _).mpr (Or.inr ⟨h, rfl⟩)⟩
+  · exact Or.inr ((mem_until_timers m t _).mpr (Or.inr ⟨h, rfl⟩))
+
+theorem armed_until_old (m : Mock) (t : Int) (c : Nat) (due : Int) (h : Armed m c due) :
+    Armed (m.until t).1 c due := by
+  rcases h with ⟨v, hv⟩ | h
+  · exact Or.inl ⟨v, (mem_until_box m t _).mpr (Or.inl hv)⟩
+  · exact Or.inr ((mem_until_timers m t _).mpr (Or.inl h))
+
+theorem armed_set (m : Mock) (t : Int) (c : Nat) (due : Int) (h : Armed m c due) :
+    Armed (m.set t) c due := by
+  rcases h with ⟨v, hv⟩ | h
+  · exact Or.inl ⟨v, (mem_set_box m t _).mpr (Or.inl hv)⟩
+  · by_cases hd : due ≤ t
+    · exact Or.inl ⟨t, (mem_set_box m t _).mpr (Or.inr ⟨rfl, due, h, hd⟩)⟩
+    · exact Or.inr ((mem_set_timers m t _).mpr ⟨h, hd⟩)
+
+/-- once the clock is set to `T ≥ due` an armed channel holds a value -/
+theorem armed_set_ready (m : Mock) (T : Int) (c : Nat) (due : Int) (h : Armed m c due)
+    (hT : due ≤ T) : ((m.set T).peek c).isSome = true := by
+  rcases h with ⟨v, hv⟩ | h
+  · exact peek_isSome_of_mem _ _ v ((mem_set_box m T _).mpr (Or.inl hv))
+  · exact peek_isSome_of_mem _ _ T ((mem_set_box m T _).mpr (Or.inr ⟨rfl, due, h, hT⟩))
+
+theorem live_iterate (d : Def) (z : Int) (s : St) (reps t : Int) : Live d z (iterate d s reps t) := by
+  unfold iterate
+  split
+  · trivial
+  · dsimp only
+    split
+    · exact ⟨armed_until_new _ _, fun _ => rfl⟩
+    · rename_i e he
+      exact ⟨armed_until_old _ _ _ _ (armed_until_new _ _), fun h => by simp [he] at h⟩
+
+theorem live_init (d : Def) (now0 : Int) : Live d (d.origin now0) (init d now0) := by
+  have := armed_until_new (Mock.at now0) (d.origin now0)
+  cases d <;> simpa [init, Live] using this
+
+theorem live_step (d : Def) (z : Int) (c : Nat) (s s' : St) (hs : step d c s = some s') :
+    Live d z s' := by
+  unfold step at hs
+  cases hph : s.ph with
+  | stopped b => simp [hph] at hs
+  | oneShot ch =>
+    simp only [hph] at hs
+    split at hs
+    · simp at hs
+    · split at hs
+      · simp at hs
+      · injection hs with hs; subst hs; trivial
+    · injection hs with hs; subst hs; trivial
+  | waitStart ch st =>
+    simp only [hph] at hs
+    split at hs
+    · simp at hs
+    · injection hs with hs; subst hs; exact live_iterate _ _ _ _ _
+    · injection hs with hs; subst hs; trivial
+  | loop reps t ch ce =>
+    simp only [hph] at hs
+    split at hs
+    · simp at hs
+    · split at hs
+      · simp at hs
+      · injection hs with hs; subst hs; exact live_iterate _ _ _ _ _
+    · injection hs with hs; subst hs; trivial
+
+theorem live_apply (d : Def) (z : Int) (s : St) (e : Ev) (h : Live d z s) :
+    Live d z (apply d s e) := by
+  cases e with
+  | cancel => exact h
+  | tick c =>
+    simp only [apply]
+    cases hs : step d c s with
+    | none => simpa using h
+    | some s' => simpa using live_step d z c s s' hs
+  | advance x =>
+    cases hph : s.ph <;> simp only [Live, apply, hph] at h ⊢
+    · exact armed_set _ _ _ _ h
+    · exact ⟨h.1, armed_set _ _ _ _ h.2⟩
+    · exact ⟨armed_set _ _ _ _ h.1, h.2⟩
+  | set t =>
+    cases hph : s.ph <;> simp only [Live, apply, hph] at h ⊢
+    · exact armed_set _ _ _ _ h
+    · exact ⟨h.1, armed_set _ _ _ _ h.2⟩
+    · exact ⟨armed_set _ _ _ _ h.1, h.2⟩
+
+theorem live_run (d : Def) (z : Int) (evs : List Ev) (s : St) (h : Live d z s) :
+    Live d z (run d s evs) := by
+  induction evs generalizing s with
+  | nil => exact h
+  | cons e es ih => exact ih _ (live_apply d z s e h)
+
+theorem pick_single (a : Alt) (k : Nat) : pick [a] k = some a := by
+  simp [pick, Nat.mod_one]
+
+theorem pick_zero_none (alts : List Alt) (h : pick alts 0 = none) : alts = [] := by
+  cases alts with
+  | nil => rfl
+  | cons a as => simp [pick] at h
+
+theorem run_append (d : Def) (s : St) (e1 e2 : List Ev) :
+    run d s (e1 ++ e2) = run d (run d s e1) e2 := by
+  simp [run, List.foldl_append]
+
 end Bpmn.Lemmas.Timer
